@@ -1,7 +1,9 @@
 package main
 
 import (
+	"fmt"
 	"go/ast"
+	"go/constant"
 	"go/token"
 	"strings"
 )
@@ -61,6 +63,26 @@ func (s *source) c11Calls(fd *ast.FuncDecl, prefixes ...string) []string {
 					break
 				}
 			}
+		}
+		return true
+	})
+	return out
+}
+
+// c11LitFields lists the key: value pairs of the first composite literal of a function, as printed source
+func (s *source) c11LitFields(fd *ast.FuncDecl) []string {
+	var out []string
+	done := false
+	ast.Inspect(fd.Body, func(n ast.Node) bool {
+		if done {
+			return false
+		}
+		if cl, ok := n.(*ast.CompositeLit); ok {
+			done = true
+			for _, el := range cl.Elts {
+				out = append(out, s.src(el))
+			}
+			return false
 		}
 		return true
 	})
@@ -149,6 +171,341 @@ func (e *emitter) c11List(s *source, rel, goName, leanName, doc string, f func(f
 	e.stringList(leanName, doc+" of `"+goName+"` in "+rel, f(fd))
 }
 
+// ---- C11's own translator: the container methods (three to six statements over a slice field, an int field
+// and the parameter) become Lean FUNCTIONS, parametrised over the primitive operations of Go they use
+// (append / len / nil / s[:0] / a type assertion / strings.Join), so that Tie.lean can instantiate the primitives
+// with the slice-heap model of Containers.lean and prove the function equal to the model's definition for ALL
+// arguments. Everything outside the subset is an extraction error (the function is emitted as `Unit`).
+
+type c11tr struct {
+	s      *source
+	rel    string
+	recv   string            // receiver identifier
+	outs   []string          // receiver fields the function may assign, in the order of the result tuple
+	strs   map[string]bool   // printed expressions that are strings (their len is `strLen`)
+	exec   string            // printed prefix of the call whose argument is the result (dbInserter.Execute: the Exec call)
+	hasRet bool
+	fail   string
+	subst  map[string]string // printed sub-expression -> Lean variable (opaque reads: the clock, an atomic load, a field)
+}
+
+func (t *c11tr) bad(n ast.Node, why string) string {
+	if t.fail == "" {
+		t.fail = why + ": " + t.s.src(n)
+	}
+	return "()"
+}
+
+func (t *c11tr) fieldVar(e ast.Expr) (string, bool) {
+	// recv.a.b -> f_a_b
+	var parts []string
+	for {
+		switch x := e.(type) {
+		case *ast.SelectorExpr:
+			parts = append([]string{x.Sel.Name}, parts...)
+			e = x.X
+			continue
+		case *ast.Ident:
+			if x.Name == t.recv && len(parts) > 0 {
+				return "f_" + strings.Join(parts, "_"), true
+			}
+		}
+		return "", false
+	}
+}
+
+func (t *c11tr) expr(e ast.Expr) string {
+	if v, ok := t.subst[t.s.src(e)]; ok {
+		return v
+	}
+	switch x := e.(type) {
+	case *ast.ParenExpr:
+		return t.expr(x.X)
+	case *ast.BasicLit:
+		switch x.Kind {
+		case token.INT:
+			return "(" + x.Value + " : Int)"
+		case token.STRING:
+			v := constant.MakeFromLiteral(x.Value, token.STRING, 0)
+			return leanString(constant.StringVal(v))
+		}
+		return t.bad(e, "literal")
+	case *ast.Ident:
+		switch x.Name {
+		case "nil":
+			return "nilS"
+		case "true", "false":
+			return x.Name
+		}
+		if v, ok := t.s.constValue(t.rel, x.Name); ok && v.Kind() == constant.Int {
+			return "(" + v.ExactString() + " : Int)"
+		}
+		return x.Name
+	case *ast.SelectorExpr:
+		if f, ok := t.fieldVar(x); ok {
+			return f
+		}
+		if id, ok := x.X.(*ast.Ident); ok {
+			return "(fld_" + x.Sel.Name + " " + id.Name + ")"
+		}
+		return t.bad(e, "selector")
+	case *ast.TypeAssertExpr:
+		return "(cast " + t.expr(x.X) + ")"
+	case *ast.SliceExpr:
+		if x.Low == nil && x.High != nil && !x.Slice3 {
+			if b, ok := x.High.(*ast.BasicLit); ok && b.Value == "0" {
+				return "(slice0 " + t.expr(x.X) + ")"
+			}
+		}
+		return t.bad(e, "slice expression")
+	case *ast.CompositeLit:
+		if t.s.src(x.Type) == "[]string" {
+			var el []string
+			for _, a := range x.Elts {
+				el = append(el, t.expr(a))
+			}
+			return "[" + strings.Join(el, ", ") + "]"
+		}
+		return t.bad(e, "composite literal")
+	case *ast.CallExpr:
+		fn := t.s.src(x.Fun)
+		switch {
+		case fn == "len" && len(x.Args) == 1:
+			if t.strs[t.s.src(x.Args[0])] {
+				return "(strLen " + t.expr(x.Args[0]) + ")"
+			}
+			return "(len " + t.expr(x.Args[0]) + ")"
+		case fn == "strings.Join" && len(x.Args) == 2:
+			return "(join " + t.expr(x.Args[0]) + " " + t.expr(x.Args[1]) + ")"
+		}
+		return t.bad(e, "call")
+	case *ast.BinaryExpr:
+		a, b := t.expr(x.X), t.expr(x.Y)
+		switch x.Op {
+		case token.GEQ:
+			return "(decide (" + a + " ≥ " + b + "))"
+		case token.GTR:
+			return "(decide (" + a + " > " + b + "))"
+		case token.LEQ:
+			return "(decide (" + a + " ≤ " + b + "))"
+		case token.LSS:
+			return "(decide (" + a + " < " + b + "))"
+		case token.EQL:
+			return "(decide (" + a + " = " + b + "))"
+		case token.NEQ:
+			return "(decide (" + a + " ≠ " + b + "))"
+		case token.ADD:
+			return "(" + a + " + " + b + ")"
+		case token.SUB:
+			return "(" + a + " - " + b + ")"
+		case token.MUL:
+			return "(" + a + " * " + b + ")"
+		case token.LAND:
+			return "(" + a + " && " + b + ")"
+		case token.LOR:
+			return "(" + a + " || " + b + ")"
+		}
+		return t.bad(e, "operator")
+	case *ast.UnaryExpr:
+		if x.Op == token.NOT {
+			return "(!" + t.expr(x.X) + ")"
+		}
+		if x.Op == token.SUB {
+			return "(-" + t.expr(x.X) + ")"
+		}
+		return t.bad(e, "unary operator")
+	}
+	return t.bad(e, "expression")
+}
+
+func (t *c11tr) result(val string) string {
+	parts := []string{}
+	for _, o := range t.outs {
+		parts = append(parts, o)
+	}
+	if val != "" {
+		parts = append(parts, val)
+	}
+	if len(parts) == 0 {
+		return "()"
+	}
+	if len(parts) == 1 {
+		return parts[0]
+	}
+	return "(" + strings.Join(parts, ", ") + ")"
+}
+
+func (t *c11tr) isOut(v string) bool {
+	for _, o := range t.outs {
+		if o == v {
+			return true
+		}
+	}
+	return false
+}
+
+// target returns the Lean variable an assignment writes: a receiver field (must be a declared output) or a local
+func (t *c11tr) target(l ast.Expr) string {
+	if f, ok := t.fieldVar(l); ok {
+		if !t.isOut(f) {
+			t.bad(l, "assignment to a field the model does not know")
+		}
+		return f
+	}
+	if id, ok := l.(*ast.Ident); ok {
+		return id.Name
+	}
+	t.bad(l, "assignment target")
+	return "_"
+}
+
+func (t *c11tr) stmts(list []ast.Stmt, ind string) string {
+	if len(list) == 0 {
+		if t.hasRet || t.exec != "" {
+			// falling off the end of a function that must return / execute
+			if t.exec != "" {
+				return ind + "none"
+			}
+			t.fail = "control reaches the end without a return"
+		}
+		return ind + t.result("")
+	}
+	st, rest := list[0], list[1:]
+	switch x := st.(type) {
+	case *ast.AssignStmt:
+		if t.exec != "" && len(x.Rhs) == 1 {
+			if c, ok := x.Rhs[0].(*ast.CallExpr); ok && strings.HasPrefix(t.s.src(c.Fun), t.exec) && len(c.Args) == 1 {
+				return ind + "some " + t.expr(c.Args[0])
+			}
+		}
+		if len(x.Lhs) != 1 || len(x.Rhs) != 1 {
+			t.bad(st, "multi-assignment")
+			return ind + "()"
+		}
+		v := t.target(x.Lhs[0])
+		switch x.Tok {
+		case token.ASSIGN, token.DEFINE:
+			if c, ok := x.Rhs[0].(*ast.CallExpr); ok && t.s.src(c.Fun) == "append" && len(c.Args) == 2 {
+				return ind + "let r_ := append hp " + t.expr(c.Args[0]) + " " + t.expr(c.Args[1]) + "\n" +
+					ind + "let hp := r_.1\n" + ind + "let " + v + " := r_.2\n" + t.stmts(rest, ind)
+			}
+			return ind + "let " + v + " := " + t.expr(x.Rhs[0]) + "\n" + t.stmts(rest, ind)
+		case token.ADD_ASSIGN:
+			return ind + "let " + v + " := (" + v + " + " + t.expr(x.Rhs[0]) + ")\n" + t.stmts(rest, ind)
+		case token.SUB_ASSIGN:
+			return ind + "let " + v + " := (" + v + " - " + t.expr(x.Rhs[0]) + ")\n" + t.stmts(rest, ind)
+		}
+		t.bad(st, "assignment operator")
+		return ind + "()"
+	case *ast.ReturnStmt:
+		if t.exec != "" {
+			return ind + "none"
+		}
+		if len(x.Results) == 0 {
+			return ind + t.result("")
+		}
+		if len(x.Results) == 1 {
+			return ind + t.result(t.expr(x.Results[0]))
+		}
+		t.bad(st, "return")
+		return ind + "()"
+	case *ast.IfStmt:
+		if x.Init != nil {
+			t.bad(st, "if with init")
+			return ind + "()"
+		}
+		thenList := x.Body.List
+		if !endsInReturn(x.Body) {
+			thenList = append(append([]ast.Stmt{}, thenList...), rest...)
+		}
+		var elseList []ast.Stmt
+		switch el := x.Else.(type) {
+		case nil:
+			elseList = rest
+		case *ast.BlockStmt:
+			elseList = el.List
+			if !endsInReturn(el) {
+				elseList = append(append([]ast.Stmt{}, elseList...), rest...)
+			}
+		default:
+			t.bad(st, "else-if")
+			return ind + "()"
+		}
+		return ind + "if " + t.expr(x.Cond) + " then\n" + t.stmts(thenList, ind+"  ") + "\n" + ind + "else\n" + t.stmts(elseList, ind+"  ")
+	}
+	t.bad(st, "statement")
+	return ind + "()"
+}
+
+// c11Translated emits `def leanName <binders> := <body>`; `binders` is written by hand (the primitives and the
+// fields / parameters the function reads), the body is translated from the source.
+func (e *emitter) c11Translated(s *source, rel, goName, leanName, binders string, outs []string, strs []string, exec string) {
+	fd := s.findFunc(rel, goName)
+	if fd == nil {
+		e.errors = append(e.errors, fmt.Sprintf("function %s not found in %s", goName, rel))
+		e.printf("/-- MISSING: %s in %s -/\ndef %s : Unit := ()\n\n", goName, rel, leanName)
+		return
+	}
+	t := &c11tr{s: s, rel: rel, outs: outs, strs: map[string]bool{}, exec: exec}
+	for _, x := range strs {
+		t.strs[x] = true
+	}
+	if fd.Recv != nil && len(fd.Recv.List) == 1 && len(fd.Recv.List[0].Names) == 1 {
+		t.recv = fd.Recv.List[0].Names[0].Name
+	}
+	t.hasRet = fd.Type.Results != nil && len(fd.Type.Results.List) > 0
+	body := t.stmts(fd.Body.List, "  ")
+	if t.fail != "" {
+		e.errors = append(e.errors, fmt.Sprintf("%s: outside the translated subset (%s)", goName, t.fail))
+		e.printf("/-- NOT TRANSLATED (%s): %s in %s -/\ndef %s : Unit := ()\n\n", strings.ReplaceAll(t.fail, "-/", "- /"), goName, rel, leanName)
+		return
+	}
+	e.printf("/-- translated from `%s` in %s (C11's container translator) -/\ndef %s %s :=\n%s\n\n", goName, rel, leanName, binders, body)
+}
+
+// c11CondFn translates the idx-th condition (if / for conditions and single-result return expressions, in source
+// order, as listed by c11Conds) of a function into a Lean Bool function of the opaque reads named in `subst`.
+func (e *emitter) c11CondFn(s *source, rel, goName string, idx int, leanName, binders string, subst map[string]string) {
+	fd := s.findFunc(rel, goName)
+	if fd == nil {
+		e.errors = append(e.errors, fmt.Sprintf("function %s not found in %s", goName, rel))
+		e.printf("/-- MISSING: %s in %s -/\ndef %s : Unit := ()\n\n", goName, rel, leanName)
+		return
+	}
+	var conds []ast.Expr
+	ast.Inspect(fd.Body, func(n ast.Node) bool {
+		switch x := n.(type) {
+		case *ast.IfStmt:
+			conds = append(conds, x.Cond)
+		case *ast.ForStmt:
+			if x.Cond != nil {
+				conds = append(conds, x.Cond)
+			}
+		case *ast.ReturnStmt:
+			if len(x.Results) == 1 {
+				conds = append(conds, x.Results[0])
+			}
+		}
+		return true
+	})
+	if idx >= len(conds) {
+		e.errors = append(e.errors, fmt.Sprintf("%s: condition #%d not found", goName, idx))
+		e.printf("/-- MISSING condition #%d of %s -/\ndef %s : Unit := ()\n\n", idx, goName, leanName)
+		return
+	}
+	t := &c11tr{s: s, rel: rel, strs: map[string]bool{}, subst: subst}
+	if fd.Recv != nil && len(fd.Recv.List) == 1 && len(fd.Recv.List[0].Names) == 1 {
+		t.recv = fd.Recv.List[0].Names[0].Name
+	}
+	body := t.expr(conds[idx])
+	if t.fail != "" {
+		e.errors = append(e.errors, fmt.Sprintf("%s: condition #%d outside the translated subset (%s)", goName, idx, t.fail))
+		e.printf("/-- NOT TRANSLATED: condition #%d of %s -/\ndef %s : Unit := ()\n\n", idx, goName, leanName)
+		return
+	}
+	e.printf("/-- condition #%d `%s` of `%s` in %s -/\ndef %s %s : Bool :=\n  %s\n\n", idx, strings.ReplaceAll(s.src(conds[idx]), "-/", "- /"), goName, rel, leanName, binders, body)
+}
+
 func init() {
 	register("C11", func(s *source, e *emitter) {
 		const f = "core/executors/periodicalexecutor.go"
@@ -189,6 +546,10 @@ func init() {
 		e.c11List(s, f, "PeriodicalExecutor.Flush", "flushConds", "conditions and returns", s.c11Conds)
 		// the containers: every statement, and the threshold comparison
 		const b = "core/executors/bulkexecutor.go"
+		e.constDef(s, b, "defaultBulkTasks", "defaultBulkTasks")
+		e.constDef(s, "core/executors/chunkexecutor.go", "defaultChunkSize", "defaultChunkSize")
+		e.constDef(s, "core/executors/vars.go", "defaultFlushInterval", "defaultFlushInterval")
+		e.constDef(s, "core/stores/sqlx/bulkinserter.go", "flushInterval", "sqlxFlushInterval")
 		e.shapeDef(s, b, "bulkContainer.AddTask", "bulkAddTaskShape")
 		e.shapeDef(s, b, "bulkContainer.RemoveAll", "bulkRemoveAllShape")
 		e.shapeDef(s, b, "bulkContainer.Execute", "bulkExecuteShape")
@@ -226,5 +587,47 @@ func init() {
 		e.c11List(s, q, "dbInserter.RemoveAll", "sqlxRemoveAllStmts", "statements", s.c11Stmts)
 		e.c11List(s, q, "dbInserter.AddTask", "sqlxThreshold", "threshold comparison (lhs, operator, rhs)", s.c11Cmp)
 		e.c11List(s, q, "dbInserter.Execute", "sqlxExecuteConds", "conditions and returns", s.c11Conds)
+		// decision-making conditions of the executor, as Lean functions of what they read
+		e.c11CondFn(s, f, "PeriodicalExecutor.shallQuit", 0, "shallQuitStaysFn", "(since interval : Int)",
+			map[string]string{"timex.Since(last)": "since", "pe.interval": "interval"})
+		e.c11CondFn(s, f, "PeriodicalExecutor.shallQuit", 1, "shallQuitStopsFn", "(inflight : Int)",
+			map[string]string{"atomic.LoadInt32(&pe.inflight)": "inflight"})
+		e.c11CondFn(s, f, "PeriodicalExecutor.Wait", 0, "waitSpinsFn", "(inflight : Int)",
+			map[string]string{"atomic.LoadInt32(&pe.inflight)": "inflight"})
+		e.c11CondFn(s, f, "PeriodicalExecutor.addAndCheck", 0, "startsFlusherFn", "(guarded : Bool)",
+			map[string]string{"pe.guarded": "guarded"})
+		e.c11CondFn(s, f, "PeriodicalExecutor.addAndCheck", 1, "handsOverFn", "(addTaskSaidFull : Bool)",
+			map[string]string{"pe.container.AddTask(task)": "addTaskSaidFull"})
+		e.c11CondFn(s, f, "PeriodicalExecutor.hasTasks", 2, "hasTasksLenFn", "(valLen : Int)",
+			map[string]string{"val.Len()": "valLen"})
+		e.c11CondFn(s, f, "PeriodicalExecutor.executeTasks", 0, "executesFn", "(ok : Bool)", nil)
+		e.c11CondFn(s, f, "PeriodicalExecutor.Add", 0, "addSendsFn", "(ok : Bool)", nil)
+		// options and constructors: every statement
+		e.c11List(s, b, "newBulkOptions", "newBulkOptionsStmts", "statements", s.c11Stmts)
+		e.c11List(s, b, "WithBulkTasks", "withBulkTasksStmts", "statements", s.c11Stmts)
+		e.c11List(s, b, "WithBulkInterval", "withBulkIntervalStmts", "statements", s.c11Stmts)
+		e.c11List(s, "core/executors/chunkexecutor.go", "newChunkOptions", "newChunkOptionsStmts", "statements", s.c11Stmts)
+		e.c11List(s, "core/executors/chunkexecutor.go", "WithChunkBytes", "withChunkBytesStmts", "statements", s.c11Stmts)
+		e.c11List(s, "core/executors/chunkexecutor.go", "WithFlushInterval", "withFlushIntervalStmts", "statements", s.c11Stmts)
+		e.c11List(s, f, "NewPeriodicalExecutor", "newPeriodicalFields", "fields of the executor literal", s.c11LitFields)
+		e.c11List(s, f, "PeriodicalExecutor.backgroundFlush", "tickerCalls", "ticker construction",
+			func(fd *ast.FuncDecl) []string { return s.c11Calls(fd, "pe.newTicker") })
+		e.c11List(s, "core/stores/sqlx/bulkinserter.go", "NewBulkInserter", "sqlxNewStmts", "statements", s.c11Stmts)
+		// semantic tie: the container methods as Lean functions over abstract slice primitives
+		const prims = "{H S T : Type} (append : H → S → T → H × S) (len : S → Int) (nilS : S) (slice0 : S → S) "
+		e.c11Translated(s, b, "bulkContainer.AddTask", "bulkAddTaskFn", prims+"(hp : H) (f_tasks : S) (f_maxTasks : Int) (task : T)",
+			[]string{"hp", "f_tasks"}, nil, "")
+		e.c11Translated(s, b, "bulkContainer.RemoveAll", "bulkRemoveAllFn", prims+"(f_tasks : S)", []string{"f_tasks"}, nil, "")
+		e.c11Translated(s, c, "chunkContainer.AddTask", "chunkAddTaskFn",
+			"{H S T V C : Type} (append : H → S → V → H × S) (len : S → Int) (nilS : S) (slice0 : S → S) (cast : T → C) (fld_val : C → V) (fld_size : C → Int) (hp : H) (f_tasks : S) (f_size : Int) (f_maxChunkSize : Int) (task : T)",
+			[]string{"hp", "f_tasks", "f_size"}, nil, "")
+		e.c11Translated(s, c, "chunkContainer.RemoveAll", "chunkRemoveAllFn", prims+"(f_tasks : S) (f_size : Int)", []string{"f_tasks", "f_size"}, nil, "")
+		e.c11Translated(s, q, "dbInserter.AddTask", "sqlxAddTaskFn",
+			"{H S T V : Type} (append : H → S → V → H × S) (len : S → Int) (nilS : S) (slice0 : S → S) (cast : T → V) (hp : H) (f_values : S) (task : T)",
+			[]string{"hp", "f_values"}, nil, "")
+		e.c11Translated(s, q, "dbInserter.RemoveAll", "sqlxRemoveAllFn", prims+"(f_values : S)", []string{"f_values"}, nil, "")
+		e.c11Translated(s, q, "dbInserter.Execute", "sqlxExecuteFn",
+			"{B : Type} (cast : B → List String) (len : List String → Int) (strLen : String → Int) (join : List String → String → String) (f_stmt_prefix f_stmt_suffix : String) (bulk : B)",
+			nil, []string{"in.stmt.suffix"}, "in.sqlConn.Exec")
 	})
 }
